@@ -45,7 +45,6 @@ def showRes {w} (signed : Bool) : Res w → String
   | .bitshiftOperand => "err BitshiftOperand"
   | .coerce => "err Coerce"
   | .zeroDiv => "err ZeroDivision"
-  | .goPanic => "panic"
 
 def inRange (L : LKind) (a : Int) : Bool :=
   if L.signed then decide (-(2 ^ (L.width - 1) : Int) ≤ a) && decide (a < (2 ^ (L.width - 1) : Int))
